@@ -788,7 +788,30 @@ func (fr *frame) builtin(v ssa.Value, b *ssa.Builtin, c *ssa.CallCommon, st *Sta
 		vc.fact(fmt.Sprintf("(and (>= %s 0) (<= %s (sl_len %s)))", r.S, r.S, dst.S))
 		if isByteSlice(c.Args[0].Type()) {
 			bm := vc.keyBM()
-			vc.set(st, bm, fmt.Sprintf("(store %s (sl_base %s) %s)", vc.cur(st, bm), dst.S, vc.freshConst("bytes", SV).S))
+			// copy(dst, src) moves min(len(dst), len(src)) bytes
+			src := arg(1)
+			var srcBytes Term
+			var srcLen string
+			wf := func(sl Term) {
+				// a slice lies within its backing array
+				vc.fact(fmt.Sprintf("(and (>= (sl_off %s) 0) (>= (sl_len %s) 0) (<= (+ (sl_off %s) (sl_len %s)) (blen (select %s (sl_base %s)))))", sl.S, sl.S, sl.S, sl.S, vc.cur(st, bm), sl.S))
+			}
+			wf(dst)
+			oldBacking := fmt.Sprintf("(select %s (sl_base %s))", vc.cur(st, bm), dst.S)
+			if isByteSlice(c.Args[1].Type()) {
+				wf(src)
+				srcBytes = fr.bytesOf(src, st)
+				srcLen = fmt.Sprintf("(sl_len %s)", src.S)
+			} else {
+				srcBytes = src // copy(dst, "string")
+				srcLen = fmt.Sprintf("(blen %s)", src.S)
+			}
+			n := ite(fmt.Sprintf("(< (sl_len %s) %s)", dst.S, srcLen), fmt.Sprintf("(sl_len %s)", dst.S), srcLen)
+			vc.fact(eq(r.S, n))
+			nb := vc.freshConst("bytes", SV)
+			vc.set(st, bm, fmt.Sprintf("(store %s (sl_base %s) %s)", vc.cur(st, bm), dst.S, nb.S))
+			vc.fact(eq(fmt.Sprintf("(blen %s)", nb.S), fmt.Sprintf("(blen %s)", oldBacking)))
+			vc.fact(eq(fmt.Sprintf("(bsub %s (sl_off %s) (+ (sl_off %s) %s))", nb.S, dst.S, dst.S, r.S), fmt.Sprintf("(bsub %s 0 %s)", srcBytes.S, r.S)))
 		} else {
 			vc.warn("%s: copy() into non-byte slice is not modelled", fr.fn)
 		}
